@@ -768,6 +768,17 @@ package flyt
 //@   ensures [C11,C20] sawCancel ==> err != nil && Is(err, ctxErr(ctx))
 //@   ensures [C11] old(cancelled) ==> callbacks == old(callbacks) && err != nil
 
+//@ func markSkipped(results) ()
+//@   assigns contents(results)
+//@   ghost i int = 0
+//@   loop 1 step i++
+//@   loop 1 invariant 0 <= i && i <= len(results)
+//@   loop 1 invariant [C09,C11] forall j int :: 0 <= j && j < i ==> results[j].err != nil
+//@   loop 1 invariant forall k int :: k < soff(results) || k >= soff(results) + len(results) ==> raw(results, k) == old(raw(results, k))
+//@   loop 1 decreases len(results) - i
+//@   ensures [C09,C11] forall j int :: 0 <= j && j < len(results) ==> results[j].err != nil
+//@   ensures forall k int :: k < soff(results) || k >= soff(results) + len(results) ==> raw(results, k) == old(raw(results, k))
+
 //@ func runBatchSequential(ctx, node, items, results, errorHandling) ()
 //@   requires node != nil && ctx != nil && len(results) == len(items) && sarr(results) != sarr(items)
 //@   havoc user
